@@ -37,10 +37,18 @@ def log(*a):
     print(*a, flush=True)
 
 
-def sh(cmd, cwd=None, timeout=None, env=None, inp=None):
-    p = subprocess.run(cmd, cwd=cwd, timeout=timeout, env=env, input=inp,
+def sh(cmd, cwd=None, timeout=None, env=None, inp=None, mem_gb=None):
+    pre = None
+    if mem_gb:
+        import resource
+        lim = int(mem_gb * (1 << 30))
+        pre = lambda: resource.setrlimit(resource.RLIMIT_AS, (lim, lim))
+    p = subprocess.run(cmd, cwd=cwd, timeout=timeout, env=env, input=inp, preexec_fn=pre,
                        stdout=subprocess.PIPE, stderr=subprocess.PIPE, text=True)
     return p.returncode, p.stdout, p.stderr
+
+
+MEM_GB = float(os.environ.get("VERIF_MEM_GB", "3.5"))
 
 
 class Infra(Exception):
@@ -209,7 +217,8 @@ class Query:
 
     def __init__(self, name, harness, units, defs=None, unwind=8, variant="exact", timeout=300,
                  funcs=None, domain="D-FULL", shape=None, stubs=None, extra_cbmc=None, unwindset=None,
-                 unit_defs=None, objbits=None, no_unwind_assert=None, known_key=None):
+                 unit_defs=None, objbits=None, no_unwind_assert=None, known_key=None, mem_gb=None):
+        self.mem_gb = mem_gb
         self.name, self.harness, self.units = name, harness, list(units)
         self.defs = dict(defs or {})
         self.unwind, self.variant, self.timeout = unwind, variant, timeout
@@ -342,12 +351,15 @@ class Runner:
             cmd = self.cbmc_cmd(q, binp)
             q.cmd = " ".join(cmd[:2] + cmd[3:])
             try:
-                rc, so, se = sh(["timeout", str(q.timeout)] + cmd, timeout=q.timeout + 30)
+                rc, so, se = sh(["timeout", str(q.timeout)] + cmd, timeout=q.timeout + 30, mem_gb=q.mem_gb or MEM_GB)
             except subprocess.TimeoutExpired:
                 rc, so, se = 124, "", ""
             q.solver_s = time.time() - t0
             if rc in (124, 137):
                 q.status, q.detail = "inconclusive", "timeout %ds" % q.timeout
+                return q
+            if rc in (-9, -6, 134) or "bad_alloc" in se or "Out of memory" in so[-2000:] or "bad_alloc" in so[-2000:]:
+                q.status, q.detail = "inconclusive", "memory limit %.1f GB (rc=%d)" % (q.mem_gb or MEM_GB, rc)
                 return q
             try:
                 results, msgs, st = parse_cbmc_json(so)
@@ -362,7 +374,7 @@ class Runner:
                 cmd = cmd + ["--no-undefined-shift-check", "--no-signed-overflow-check"]
                 q.extra_cbmc = q.extra_cbmc + ["--no-undefined-shift-check", "--no-signed-overflow-check"]
                 try:
-                    rc, so, se = sh(["timeout", str(q.timeout)] + cmd, timeout=q.timeout + 30)
+                    rc, so, se = sh(["timeout", str(q.timeout)] + cmd, timeout=q.timeout + 30, mem_gb=q.mem_gb or MEM_GB)
                 except subprocess.TimeoutExpired:
                     rc = 124
                 q.solver_s = time.time() - t0
@@ -388,7 +400,8 @@ class Runner:
             real_fail = [r for r in real_fail if r not in ub]
             other = [r for r in results if r["status"] not in ("SUCCESS", "FAILURE")]
             if other:
-                q.status, q.detail = "error", "status %s for %s" % (other[0]["status"], other[0]["property"])
+                # cbmc gives ERROR/UNKNOWN statuses when it ran into the resource limit while deciding a property
+                q.status, q.detail = "inconclusive", "cbmc status %s for %s (resource limit)" % (other[0]["status"], other[0]["property"])
                 return q
             if real_fail:
                 q.failed_props = [(r["property"], r.get("description", "")) for r in real_fail]
@@ -397,7 +410,7 @@ class Runner:
             if not wit:
                 q.status, q.detail = "error", "harness has no WITNESS assertion"
                 return q
-            if any(r["status"] == "SUCCESS" for r in wit):
+            if not any(r["status"] == "FAILURE" for r in wit):
                 q.status, q.detail = "vacuous", "WITNESS assertion unreachable: harness never reaches its end"
                 return q
             q.status = "discharged"
@@ -416,7 +429,7 @@ class Runner:
         pick = sorted(real_fail, key=lambda r: (0 if r["property"].startswith("main.assertion") or "assertion" in r["property"] else 1))[0]
         cmd = self.cbmc_cmd(q, binp, trace=True, prop=pick["property"])
         try:
-            rc, so, se = sh(["timeout", str(q.timeout * 2)] + cmd, timeout=q.timeout * 2 + 30)
+            rc, so, se = sh(["timeout", str(q.timeout * 2)] + cmd, timeout=q.timeout * 2 + 30, mem_gb=2 * (q.mem_gb or MEM_GB))
             results, msgs, st = parse_cbmc_json(so)
         except Exception as e:
             q.status, q.detail = "unconfirmed", "trace run failed: %s" % e
@@ -472,7 +485,7 @@ class Runner:
         if "AddressSanitizer" in out:
             m = re.search(r"ERROR: AddressSanitizer: ([^\n]*)", out)
             return "fail", "REPLAY-FAIL AddressSanitizer: " + (m.group(1)[:200] if m else "")
-        if "REPLAY-FAIL" in out or rc in (1, -6, -11, 134, 139):
+        if "REPLAY-FAIL" in out or rc in (1, -6, -8, -11, 134, 136, 139):
             return "fail", out
         if "REPLAY-ASSUME" in out:
             return "assume", out
